@@ -4,6 +4,8 @@ Shape: reference-model differential monitor (RefSurface from the face list alone
 orders in which the lazily answered accessors are issued (each accessor in turn first on a fresh object)."""
 import random
 
+import numpy as np
+
 from .. import build, surfconn
 from ..ref.surface_ref import RefSurface
 from ..zoo import surfaces
@@ -38,9 +40,15 @@ def run_case(desc, ctx):
     z = surfaces.make(desc["seed"], max_size=desc["max_size"])
     V, F = z["V"], z["F"]
     a = z["topo"]
+    rng = random.Random(desc["seed"] ^ 0x5bd1)
+    if desc["seed"] % 10 == 3:
+        # a vertex that belongs to no face, placed anywhere in the numbering: every answer about the other vertices must be unaffected
+        k = rng.randrange(len(V) + 1)
+        V = np.vstack([np.asarray(V, float)[:k], [[9.0, 9.0, 9.0]], np.asarray(V, float)[k:]])
+        F = [[v + (v >= k) for v in f] for f in F]
+        ctx.cls("isolated_vertex:yes")
     ref = RefSurface(len(V), F)
     sorted_on = desc["sorted"]
-    rng = random.Random(desc["seed"] ^ 0x5bd1)
     P = surfconn.probes(ref, rng)
     S = surfconn.script(P)
     nacc = len(S)
